@@ -14,6 +14,18 @@ TBR = "func_adl/type_based_replacement.py"
 FS = "func_adl/ast/function_simplifier.py"
 
 MUTANTS = {
+    "C07": [
+        {"name": "find-keyword-first", "edits": [(TBR, "    for kw in keywords:\n        if kw.arg == name:", "    for kw in keywords:\n        if kw.arg == name or len(keywords) == 1:")]},
+        {"name": "default-from-previous-param", "edits": [(TBR, "                elif param.default is not param.empty:\n                    a = as_literal(param.default)", "                elif param.default is not param.empty:\n                    a = as_literal(prev_default if prev_default is not None else param.default)"), (TBR, "    for param in sig.parameters.values():\n        # The stream operators", "    prev_default = None\n    for param in sig.parameters.values():\n        # The stream operators"), (TBR, "            i_arg += 1\n", "            i_arg += 1\n            prev_default = param.default if param.default is not param.empty and isinstance(param.default, float) else None\n")]},
+        {"name": "i-arg-stuck-again", "edits": [(TBR, "            i_arg += 1\n", "")]},
+        {"name": "fixup-no-append", "edits": [(TBR, "            for a in node.args[n_old_args:]:\n                orig_ast.args.append(a)", "            for a in node.args[n_old_args + 1:]:\n                orig_ast.args.append(a)")]},
+        {"name": "fixup-keeps-keywords", "edits": [(TBR, "            orig_ast.keywords = node.keywords\n", "")]},
+        {"name": "known-types-win-again", "edits": [(TBR, "known_types | {var_name: orig_type}", "{var_name: orig_type} | known_types")]},
+        {"name": "operators-filled-too", "edits": [(TBR, "                    fill_in_defaults=base_obj.method_class is not ObjectStream,", "                    fill_in_defaults=True,")]},
+        {"name": "missing-required-gets-none", "edits": [(TBR, "                else:\n                    raise ValueError(f\"Argument {param.name} is required\")", "                elif i_arg == 0:\n                    raise ValueError(f\"Argument {param.name} is required\")\n                else:\n                    break")]},
+        {"name": "function-keywords-kept", "edits": [(TBR, "                r_node, return_annotation = _fill_in_default_arguments(func_info.function, r_node)", "                r_node, return_annotation = _fill_in_default_arguments(func_info.function, r_node, len(r_node.keywords) < 2)")]},
+        {"name": "bool-default-as-int", "edits": [(UA, "    return ast.Constant(value=p, kind=None)", "    return ast.Constant(value=int(p) if isinstance(p, bool) else p, kind=None)")]},
+    ],
     "C10": [
         {"name": "compare-rebuilt", "edits": [(TBR, "            t_node = self.generic_visit(node)\n            self._found_types[node] = bool\n            self._found_types[t_node] = bool\n            return t_node\n\n        def visit_IfExp", "            t_node = self.generic_visit(node)\n            if len(node.ops) > 1:\n                t_node = ast.Compare(left=node.left, ops=node.ops[:1], comparators=node.comparators[:1])\n            self._found_types[node] = bool\n            self._found_types[t_node] = bool\n            return t_node\n\n        def visit_IfExp")]},
         {"name": "unary-keyerror-again", "edits": [(TBR, "            self._found_types[node] = self.lookup_type(node.operand)\n", "            self._found_types[node] = self._found_types[node.operand]\n")]},
